@@ -55,6 +55,15 @@ std::function<void(HllSketchImpl<A>*)> CouponHashSet<A>::get_deleter() const {
   };
 }
 
+// a set holds at most 3/4 of 2^(lgK-3) coupons (beyond that it is promoted to HLL mode)
+static inline void checkImageSizes(uint8_t lgK, uint32_t couponCount) {
+  HllUtil<>::checkLgK(lgK);
+  if (static_cast<uint64_t>(hll_constants::RESIZE_DENOM) * couponCount
+      > (static_cast<uint64_t>(hll_constants::RESIZE_NUMER) << (lgK - 3))) {
+    throw std::invalid_argument("Possible corruption: coupon count exceeds the capacity of a set: " + std::to_string(couponCount));
+  }
+}
+
 template<typename A>
 CouponHashSet<A>* CouponHashSet<A>::newSet(const void* bytes, size_t len, const A& allocator) {
   if (len < hll_constants::HASH_SET_INT_ARR_START) { // hard-coded
@@ -89,8 +98,12 @@ CouponHashSet<A>* CouponHashSet<A>::newSet(const void* bytes, size_t len, const 
 
   uint32_t couponCount;
   std::memcpy(&couponCount, data + hll_constants::HASH_SET_COUNT_INT, sizeof(couponCount));
+  checkImageSizes(lgK, couponCount);
   if (lgArrInts < hll_constants::LG_INIT_SET_SIZE) {
     lgArrInts = HllUtil<>::computeLgArrInts(SET, couponCount, lgK);
+  }
+  if (!compactFlag && lgArrInts > lgK) {
+    throw std::invalid_argument("Possible corruption: coupon table of a set larger than k: lgArr " + std::to_string(lgArrInts));
   }
   // Don't set couponCount in sketch here;
   // we'll set later if updatable, and increment with updates if compact
@@ -103,23 +116,31 @@ CouponHashSet<A>* CouponHashSet<A>::newSet(const void* bytes, size_t len, const 
 
   ChsAlloc chsa(allocator);
   CouponHashSet<A>* sketch = new (chsa.allocate(1)) CouponHashSet<A>(lgK, tgtHllType, allocator);
+  typedef std::unique_ptr<CouponHashSet<A>, std::function<void(HllSketchImpl<A>*)>> coupon_hash_set_ptr;
+  coupon_hash_set_ptr ptr(sketch, sketch->get_deleter());
 
   if (compactFlag) {
     const uint8_t* curPos = data + hll_constants::HASH_SET_INT_ARR_START;
     uint32_t coupon;
     for (uint32_t i = 0; i < couponCount; ++i, curPos += sizeof(coupon)) {
       std::memcpy(&coupon, curPos, sizeof(coupon));
+      if (coupon == hll_constants::EMPTY) break; // not a coupon: caught by the count check below
       sketch->couponUpdate(coupon);
     }
   } else {
     sketch->coupons_.resize(1ULL << lgArrInts);
-    sketch->couponCount_ = couponCount;
+    sketch->couponCount_ = 0;
     std::memcpy(sketch->coupons_.data(),
                 data + hll_constants::HASH_SET_INT_ARR_START,
                 couponsInArray * sizeof(uint32_t));
+    for (const uint32_t coupon: sketch->coupons_) { if (coupon != hll_constants::EMPTY) ++sketch->couponCount_; }
+  }
+  // the count must be the number of distinct coupons actually present
+  if (sketch->couponCount_ != couponCount) {
+    throw std::invalid_argument("Possible corruption: coupon count does not match the coupons in the image");
   }
 
-  return sketch;
+  return ptr.release();
 }
 
 template<typename A>
@@ -153,8 +174,12 @@ CouponHashSet<A>* CouponHashSet<A>::newSet(std::istream& is, const A& allocator)
   const bool compactFlag = ((listHeader[hll_constants::FLAGS_BYTE] & hll_constants::COMPACT_FLAG_MASK) ? true : false);
 
   const auto couponCount = read<uint32_t>(is);
+  checkImageSizes(lgK, couponCount);
   if (lgArrInts < hll_constants::LG_INIT_SET_SIZE) {
     lgArrInts = HllUtil<>::computeLgArrInts(SET, couponCount, lgK);
+  }
+  if (!compactFlag && lgArrInts > lgK) {
+    throw std::invalid_argument("Possible corruption: coupon table of a set larger than k: lgArr " + std::to_string(lgArrInts));
   }
 
   ChsAlloc chsa(allocator);
@@ -167,17 +192,26 @@ CouponHashSet<A>* CouponHashSet<A>::newSet(std::istream& is, const A& allocator)
   if (compactFlag) {
     for (uint32_t i = 0; i < couponCount; ++i) {
       const auto coupon = read<uint32_t>(is);
+      if (!is.good() || coupon == hll_constants::EMPTY) break; // not a coupon: caught below
       sketch->couponUpdate(coupon);
     }
   } else {
     sketch->coupons_.resize(1ULL << lgArrInts);
-    sketch->couponCount_ = couponCount;
+    sketch->couponCount_ = 0;
     // for stream processing, read entire list so read pointer ends up set correctly
     read(is, sketch->coupons_.data(), sketch->coupons_.size() * sizeof(uint32_t));
+    if (is.good()) {
+      for (const uint32_t coupon: sketch->coupons_) { if (coupon != hll_constants::EMPTY) ++sketch->couponCount_; }
+    }
   } 
 
   if (!is.good())
     throw std::runtime_error("error reading from std::istream"); 
+
+  // the count must be the number of distinct coupons actually present
+  if (sketch->couponCount_ != couponCount) {
+    throw std::invalid_argument("Possible corruption: coupon count does not match the coupons in the image");
+  }
 
   return ptr.release();
 }
